@@ -107,6 +107,11 @@ func scLinear(r *gen.Rand, name string, n int) Case {
 	tag := 1
 	tip := 0
 	var chainTxs []int // instances on the valid chain so far
+	onChain := map[int]bool{} // their tags
+	restartAt := 0
+	if r.Chance(1, 3) {
+		restartAt = 1 + r.Intn(n)
+	}
 	for h := 1; h <= n; h++ {
 		k := r.Pick(3, 4, 2)
 		for j := 0; j < k; j++ {
@@ -188,7 +193,12 @@ func scLinear(r *gen.Rand, name string, n int) Case {
 			if r.Chance(1, 2) {
 				b.op("produce %d", w) // the same body offered to the node's own block production
 			}
+			// none / some / all of the body's transactions in the receiving node's mempool
+			b.poolFor(r.Bool, r.Intn(3), w, onChain)
 			b.deliver(w, "p", bc(r))
+		}
+		if restartAt == h {
+			b.op("restart")
 		}
 		// the valid block: fresh transactions, now and then with expiries that are still fine
 		var txs []int
@@ -220,6 +230,9 @@ func scLinear(r *gen.Rand, name string, n int) Case {
 		b.deliver(w, "p", bc(r))
 		tip = w
 		chainTxs = append(chainTxs, txs...)
+		for _, t := range txs {
+			onChain[b.insts[t].tag] = true
+		}
 		if r.Chance(1, 3) {
 			b.op("chain")
 		}
@@ -358,6 +371,9 @@ func scWindow(r *gen.Rand, name string) Case {
 		w := b.blk(tip, txs, opt())
 		b.deliver(w, "p", bc(r))
 		tip = w
+		if r.Chance(1, 4) {
+			b.op("restart") // InitCache rebuilds the window cache from the last hi+lo blocks
+		}
 	}
 	b.op("scan")
 	b.observe()
@@ -438,6 +454,92 @@ func scBoundary(r *gen.Rand, name string) Case {
 	return b.done()
 }
 
+// scDupPooled: ALL transactions of a peer block sit in the receiving node's mempool (the pool is
+// asked by hash, so the repeated one counts too); the block repeats its last transaction and
+// declares the tx root and the state root that executing the body, duplicate included, really gives.
+func scDupPooled(r *gen.Rand, name string, n int, mode int) Case {
+	b := newCase(name, r.Bool(), 600, 200)
+	tag := 1
+	ws := b.trunk(r, 0, 1+r.Intn(3), &tag)
+	tip := ws[len(ws)-1]
+	var txs []int
+	for i := 0; i < n; i++ {
+		txs = append(txs, b.plain(tag))
+		tag++
+	}
+	pos := r.Intn(n)
+	dup := append(append([]int{}, txs...), txs[pos]) // [a b c c] / [a b c a] ...
+	o := opt()
+	o.salt = 1
+	d := b.blk(tip, dup, o)
+	x := b.blk(tip, txs, opt())
+	b.poolFor(r.Bool, mode, d, nil)
+	b.op("produce %d", d)
+	b.deliver(d, "p", bc(r))
+	b.op("scan")
+	b.deliver(x, "p", bc(r))
+	nx := b.blk(x, []int{b.plain(tag)}, opt())
+	b.deliver(nx, "p", bc(r))
+	b.op("scan")
+	b.observe()
+	return b.done()
+}
+
+// scRestartLong: a TxHeight transaction X and an ordinary transaction are packed, then `gap` cheap
+// blocks follow (more than defCacheSize = 128: the block cache no longer reaches back to X, the
+// TxHeight window of 600+200 heights does), then the node is RESTARTED on its data directory
+// (InitCache rebuilds the window cache from the database); X (window still open) and the ordinary
+// transaction are offered again — as peer blocks and to the node's own block production.
+func scRestartLong(r *gen.Rand, name string, gap int) Case {
+	b := newCase(name, r.Bool(), 600, 200)
+	tag := 1
+	ws := b.trunk(r, 0, 1+r.Intn(3), &tag)
+	tip := ws[len(ws)-1]
+	h := b.blks[tip].height + 1
+	X := b.tx(tag, 0, true, fmt.Sprintf("x%d", h+r.Intn(150)), true, true, true, "r", 3)
+	tag++
+	p0 := b.plain(tag)
+	tag++
+	tip = b.blk(tip, []int{X, p0}, opt())
+	b.deliver(tip, "p", bc(r))
+	var X2 int // a second TxHeight transaction, packed inside the last 128 blocks
+	for i := 0; i < gap; i++ {
+		txs := []int{b.plain(tag)}
+		tag++
+		if i == gap-20 {
+			X2 = b.tx(tag, 0, true, fmt.Sprintf("x%d", b.blks[tip].height+1), true, true, true, "r", 4)
+			tag++
+			txs = append(txs, X2)
+		}
+		tip = b.blk(tip, txs, opt())
+		b.deliver(tip, "p", bc(r))
+	}
+	b.op("restart")
+	b.op("chain")
+	for j, again := range []int{X, p0, X2} {
+		o := opt()
+		o.salt = 1 + j
+		fresh := b.plain(tag)
+		tag++
+		w := b.blk(tip, []int{fresh, again}, o)
+		b.op("produce %d", w)
+		b.deliver(w, "p", bc(r))
+	}
+	nx := b.blk(tip, []int{b.plain(tag)}, opt())
+	tag++
+	b.deliver(nx, "p", bc(r))
+	o := opt()
+	o.salt = 1
+	w := b.blk(nx, []int{X, b.plain(tag)}, o)
+	tag++
+	b.deliver(w, "p", bc(r))
+	b.op("scan")
+	b.op("chain")
+	b.op("txidx %d", b.insts[X].tag)
+	b.op("txidx %d", b.insts[p0].tag)
+	return b.done()
+}
+
 // GenC28 is the case generator of h_c28.
 func GenC28(seed uint64) []Case {
 	r := gen.New(seed*0x9e37 + 28)
@@ -447,6 +549,18 @@ func GenC28(seed uint64) []Case {
 	cs = append(cs, scS28(r, "s28-extra-bad", true, true))
 	cs = append(cs, scPoolHonest(r, "pool-honest"))
 	cs = append(cs, scBoundary(r, "boundary"))
+	for mode, nm := range []string{"none", "some", "all"} {
+		cs = append(cs, scDupPooled(r, "duppooled-"+nm, 2+r.Intn(3), mode))
+	}
+	// restart after a long chain: quick = one history with 140 blocks between packing and restart;
+	// thorough = gaps 125..160 on both sides of defCacheSize = 128
+	cs = append(cs, scRestartLong(r, "restart-long", 140))
+	for i := 0; i < gen.Scale(0, 8); i++ {
+		cs = append(cs, scRestartLong(r, fmt.Sprintf("restart-long%d", i), 125+r.Intn(36)))
+	}
+	for i := 0; i < gen.Scale(0, 30); i++ {
+		cs = append(cs, scDupPooled(r, fmt.Sprintf("duppooled%d", i), 1+r.Intn(4), r.Intn(3)))
+	}
 	for i := 0; i < gen.Scale(6, 240); i++ {
 		cs = append(cs, scLinear(r, fmt.Sprintf("linear%d", i), 3+r.Intn(gen.Scale(5, 10))))
 	}
